@@ -62,6 +62,18 @@ def make_pairs(tier, rng):
                 if rng.random() < 0.5:      # node names that contain one another (decisions are compared by name)
                     p2 = gen.rename_nodes(prog, {"A": "step", "B": "step_b", "C": "b"})
                 pairs.append((gen.job(0, p2, prov, mode=mode), ("cyc/" if cyc else "dag/") + tag))
+    # the same gated programs with a DECLARED topology: the inferred data edges plus (legal, if discouraged) explicit
+    # gate -> target pairs; routing must not depend on how the topology was stated
+    declared = []
+    for j, tag in pairs:
+        if not thorough and rng.random() < 0.75:
+            continue
+        ed = gen.inferred_edges(j["prog"]) or []
+        for n in j["prog"]["nodes"]:
+            if n["kind"] in ("route", "ifelse"):
+                ed += [[n["name"], t] for t in n["targets"] if t != "END" and [n["name"], t] not in ed]
+        if ed:
+            declared.append((gen.job(0, dict(copy.deepcopy(j["prog"]), edges=ed), j["provided"], mode=j["mode"]), "declared-edges/" + tag))
     # the same gated programs INSIDE a nested graph (gate and targets live in the inner frame)
     nested = []
     for j, tag in pairs:
@@ -74,7 +86,7 @@ def make_pairs(tier, rng):
         gn = IR.graph_node(inner, name="inner", inputs=["x"], outputs=outs)
         outer = IR.prog("top", [IR.func("P", ["u"], ["x"]), gn, IR.func("Q", [outs[-1]], ["q"])], max_iter=10)
         nested.append((gen.job(0, outer, [["u", "in.u"]], mode=j["mode"]), "nested/" + tag))
-    pairs += nested
+    pairs += nested + declared
     n_rand = 4000 if thorough else 700
     tries = 0
     while n_rand > 0 and tries < 60000:
